@@ -406,11 +406,26 @@ func ruleEditRange(c *Ctx) {
 			if v := stores[".Start.Character"]; len(v) == 1 {
 				startChar = v[0]
 			}
-			endOK := false
-			if v := stores[".End"]; len(v) == 1 {
-				es := backSlice(v[0])
-				endOK = es[posParam] && !sliceHasCall(es, func(*ssa.Function, *ssa.Call) bool { return true })
+			// every store into End (as a whole or into one of its coordinates) takes the request position unchanged
+			endOK, nEnd := true, 0
+			for k, vs := range stores {
+				if k != ".End" && !strings.HasPrefix(k, ".End.") {
+					continue
+				}
+				for _, v := range vs {
+					nEnd++
+					es := backSlice(v)
+					if !es[posParam] || sliceHasCall(es, func(*ssa.Function, *ssa.Call) bool { return true }) {
+						endOK = false
+					}
+					for w := range es {
+						if _, isBin := w.(*ssa.BinOp); isBin {
+							endOK = false
+						}
+					}
+				}
 			}
+			endOK = endOK && nEnd > 0
 			c.check(endOK, "I-RANGE", fname, "range ends at the request position", al.Pos(),
 				"End is the position the request was made at", "the replace range does not end at the request position")
 			if startChar == nil {
